@@ -15,7 +15,9 @@ CONSTANTS
   MaxChanges = 3
   MaxUpdates = 0
   MaxCalls = 0
+  NPages = 1
   ModernUnsub = FALSE
+  ForeignUnsub = FALSE
   Stepwise = TRUE
   Gates = FALSE
   GateNames = {"inv", "usr", "put"}
